@@ -1,4 +1,4 @@
-HOOK_COMMITS = ['81c746f', 'eeb4891']
+HOOK_COMMITS = ['81c746f', 'eeb4891', '0c7b54f', '27186c1', 'cf21213']
 
 META = {
     'C06': {
@@ -77,4 +77,11 @@ META['C18'] = {
     'technique': 'Coq induction over cell trees on top of the C02 hash spec + byte-exact extracted-model correspondence',
 }
 
+# Properties not claimed at this commit.  The technique (Coq model + theorems + correspondence)
+# applies to every one of them (DESIGN.md §6); an entry here means only that its check is not
+# finished/registered yet.  bin/mkmanifest fills the list from properties.jsonl: every id without a
+# registered check gets the reason below (or a specific one from NOT_CLAIMED_REASON).
+NOT_CLAIMED_DEFAULT = ("not claimed at this commit: the Coq model/theorems/correspondence harness for this property "
+                       "are not finished or not yet registered (the technique itself applies, see DESIGN.md §6)")
+NOT_CLAIMED_REASON = {}
 NOT_APPLICABLE = []
